@@ -422,6 +422,9 @@ class Translator:
         if k == "do":
             e = s[1]
             if e == ("call", ("path", ["self", "frames", "push"]), [("path", ["frame"])]) and st == "b":
+                # expressions are translated against the builder as it was on entry: nothing may be evaluated after the push
+                if not (len(rest) == 1 and rest[0][0] == "tail" and rest[0][1] == ("call", ("path", ["Ok"]), [("unit",)])):
+                    raise Untranslatable("statements after the push")
                 return self.stmts(rest, env, "{ b with frames := b.frames ++ [f] }", ind, result)
             raise Untranslatable("statement")
         if k == "tail":
